@@ -15,7 +15,9 @@ import (
 	"errors"
 	"fmt"
 	"io"
+	"os"
 	"sort"
+	"strconv"
 	"strings"
 	"sync"
 	"time"
@@ -26,6 +28,7 @@ import (
 	"github.com/go-git/go-git/v6/plumbing/format/index"
 	"github.com/go-git/go-git/v6/plumbing/format/packfile"
 	"github.com/go-git/go-git/v6/plumbing/format/reflog"
+	"github.com/go-git/go-git/v6/plumbing/storer"
 	"github.com/go-git/go-git/v6/storage"
 
 	"verifmc/fw"
@@ -39,6 +42,8 @@ const (
 	absRefC = "refs/heads/n/c"
 	absRefN = "refs/heads/n" // never a reference: the directory above absRefC
 )
+
+const absReadAllOp = "ReadAll"
 
 var absRefLookups = []string{absRefA, absRefB, absRefC, absRefN, "HEAD"}
 var absReflogNames = []string{absRefA, absRefB}
@@ -59,6 +64,9 @@ type absUni struct {
 	order  []string          // object names in rendering order
 	packs  map[string][]byte // named version-2 packs (undeltified)
 	packOf map[string][]string
+	// id prefixes looked up after every history: empty, one byte and three
+	// bytes of every object, two full ids, and the two extreme bytes
+	prefixes [][]byte
 }
 
 var (
@@ -106,6 +114,12 @@ func absUniverse(format string) *absUni {
 	who := "A <a@x> 1700000000 +0000"
 	c1 := add("c1", plumbing.CommitObject, []byte("tree "+t1.hash.String()+"\nauthor "+who+"\ncommitter "+who+"\n\nmsg\n"))
 	add("g1", plumbing.TagObject, []byte("object "+c1.hash.String()+"\ntype commit\ntag v\ntagger "+who+"\n\nmsg\n"))
+	u.prefixes = [][]byte{{}, {0x00}, {0xff}}
+	for _, n := range u.order {
+		b := u.objs[n].hash.Bytes()
+		u.prefixes = append(u.prefixes, b[:1], b[:3])
+	}
+	u.prefixes = append(u.prefixes, u.objs["o2"].hash.Bytes(), u.objs["p1"].hash.Bytes())
 	u.mkPack("base", "p1", "t1")
 	u.mkPack("new", "o2", "o3", "g1")
 	absUnis[format] = u
@@ -326,6 +340,37 @@ func observeRepo(u *absUni, st storage.Storer, tag string) string {
 		}
 		out = append(out, s)
 	}
+	// abbreviated-id expansion exactly as Repository.ResolveRevision does it:
+	// the storage's HashesWithPrefix when it has one, a scan otherwise
+	for _, p := range u.prefixes {
+		var hs []plumbing.Hash
+		var err error
+		if fi, ok := st.(interface {
+			HashesWithPrefix(prefix []byte) ([]plumbing.Hash, error)
+		}); ok {
+			hs, err = fi.HashesWithPrefix(p)
+		} else {
+			var it storer.EncodedObjectIter
+			if it, err = st.IterEncodedObjects(plumbing.AnyObject); err == nil {
+				err = it.ForEach(func(o plumbing.EncodedObject) error {
+					if h := o.Hash(); h.HasPrefix(p) {
+						hs = append(hs, h)
+					}
+					return nil
+				})
+			}
+		}
+		if err != nil {
+			out = append(out, fmt.Sprintf("prefix %x %s", p, ek(err)))
+			continue
+		}
+		var ls []string
+		for _, h := range hs {
+			ls = append(ls, u.objName(h))
+		}
+		sort.Strings(ls)
+		out = append(out, fmt.Sprintf("prefix %x: %s", p, strings.Join(ls, ",")))
+	}
 	if idx, err := st.Index(); err != nil {
 		out = append(out, "index "+ek(err))
 	} else {
@@ -403,6 +448,16 @@ func expectRepo(a *absRepo, tag string, withReflog bool) string {
 		sort.Strings(os)
 		out = append(out, "iterobjs "+t.String()+" "+strings.Join(os, ","))
 	}
+	for _, p := range u.prefixes {
+		var os []string
+		for _, n := range u.order {
+			if a.objs[n] && bytes.HasPrefix(u.objs[n].hash.Bytes(), p) {
+				os = append(os, n)
+			}
+		}
+		sort.Strings(os)
+		out = append(out, fmt.Sprintf("prefix %x: %s", p, strings.Join(os, ",")))
+	}
 	if a.index == "" {
 		out = append(out, "index v2 ")
 	} else {
@@ -478,8 +533,10 @@ type repoOp struct {
 	do func(st storage.Storer, m *absRepo) (string, string)
 }
 
-// repoOps is the operation menu shared by C17 and C19.
-func repoOps(u *absUni) []repoOp {
+// repoOps is the operation menu shared by C17 and C19; readTag names the
+// section of a mid-history read like the final observation of the check, so
+// that one defect gives one key wherever it is seen.
+func repoOps(u *absUni, readTag string) []repoOp {
 	okres := func(err error) string {
 		if err == nil {
 			return "ok"
@@ -608,10 +665,20 @@ func repoOps(u *absUni) []repoOp {
 			return "ok", okres(err)
 		}}
 	}
+	// ReadAll reads everything mid-history and compares it with the model: the
+	// writes that follow meet warm caches and lists (loose-object list, pack
+	// list, index cache, object cache) instead of a storage that was only
+	// written to.
+	readAll := repoOp{absReadAllOp, func(st storage.Storer, m *absRepo) (string, string) {
+		_, rl := st.(reflogStorer)
+		return expectRepo(m, readTag, rl), observeRepo(u, st, readTag)
+	}}
 	return []repoOp{
-		// references: retarget / detach HEAD, hash -> symbolic, create, overwrite,
-		// compare-and-set (current, stale, absent, no old value, symbolic), remove
-		setSym("HEAD", absRefB), setSym("HEAD", absRefC), setRef("HEAD", "h2"), setSym(absRefB, absRefA),
+		readAll,
+		// references: retarget / detach HEAD, hash -> symbolic (a, the name the
+		// hash compare-and-sets aim at), create, overwrite, compare-and-set
+		// (current, stale, absent, no old value, symbolic), remove
+		setSym("HEAD", absRefB), setSym("HEAD", absRefC), setRef("HEAD", "h2"), setSym(absRefA, absRefB),
 		setRef(absRefA, "h2"), setRef(absRefC, "h3"),
 		cas(absRefA, "h3", "h1"), cas(absRefA, "h3", "h2"), cas(absRefC, "h2", "h3"), casNil(absRefC, "h1"),
 		casSym("HEAD", absRefB, absRefA),
@@ -639,6 +706,20 @@ func repoOps(u *absUni) []repoOp {
 			return "ok", okres(err)
 		}},
 	}
+}
+
+// absDevDepth is a development aid for mutant runs on a loaded machine:
+// VERIF_DEV_MAXDEPTH=n caps the history depth (recorded in the bounds like any
+// other depth; whatever a shallower run catches the full run catches too,
+// since it explores a superset of histories).
+func absDevDepth(c *fw.Ctx, d int) int {
+	if v := os.Getenv("VERIF_DEV_MAXDEPTH"); v != "" {
+		if n, err := strconv.Atoi(v); err == nil && n > 0 && n < d {
+			c.Bound("dev_max_depth", n)
+			return n
+		}
+	}
+	return d
 }
 
 // diffLines gives a stable, value-level description of the first differing lines.
@@ -790,9 +871,9 @@ func absLineDiff(a, b string) string {
 		}
 	case "iterrefs", "shallow":
 		return ta[0] + ": " + absListDiff(rest(ta, 1), rest(tb, 1))
-	case "iterobjs", "reflog", "index":
+	case "iterobjs", "reflog", "index", "prefix":
 		if len(ta) >= 2 && len(tb) >= 2 && ta[1] == tb[1] && !strings.Contains(rest(ta, 2)+rest(tb, 2), " ") {
-			return ta[0] + " " + ta[1] + ": " + absListDiff(rest(ta, 2), rest(tb, 2))
+			return ta[0] + " " + strings.TrimSuffix(ta[1], ":") + ": " + absListDiff(rest(ta, 2), rest(tb, 2))
 		}
 	}
 	return fmt.Sprintf("want %q got %q", a, b)
